@@ -588,7 +588,7 @@ pub fn run(p: &Params) -> (Stats, &'static str) {
         } else {
             let mut pushes = [0u32; 7];
             seq.retain(|s| {
-                if (s.op == 5 || s.op == 6) && (1..=3).contains(&s.target) {
+                if (s.op == 5 || s.op == 6) && (1..=4).contains(&s.target) {
                     pushes[s.target as usize] += 1;
                     pushes[s.target as usize] < v.rwnd
                 } else {
